@@ -22,7 +22,7 @@ CHECKS = {
  "C06": ("proof", "Lean 4 theorems (consistency of every algorithm's result, outputs_from_partition, *_sums_values, snp/rnpF_sums_manager_independent, ckkF_sums_manager_independent; refutation ckk_sums_manager_dependent of the code before fix F11) + model-side output projection + correspondence across all output types",
          "Reported sums = totals of the reported bins is part of every validity theorem; every output type is a proved function of the bins (the model projects it); the sums-only manager's run returns the same sum vector as the contents manager's run for every algorithm (for complete Karmarkar-Karp this was false on the pinned tree - found by the proof attempt, repaired by fix F11, proved for the repaired code). Every case is run once per output type of prtpy.out and the statement itself is evaluated on the implementation.", TB),
  "C07": ("proof", "Lean 4 naturality theorems (alg (map f) = mapItems f . alg) for 15 algorithms, injective-renaming naturality and list-vs-named equality of the sum vector (ckkF_list_dict_sums, snp_list_dict_sums, rnpF_list_dict_sums) for CKK/SNP/RNP + validity theorems generic in the value function + correspondence across the six input formats and numpy arrays of narrow / unsigned integer types",
-         "Full for the fold-shaped algorithms, KK, CG, CBLDM, DP (any renaming, so repeated values in list input are covered); for CKK and SNP full as well (equivariance under injective renamings + equality of the whole sum vector with the run on the bare values; for CKK after fix F11, the statement was false before); for RNP (k <= 5) by RNPDict.rnpF_list_dict_sums; each case is presented as list, numpy array, dict (string and integer names) and names+valueof and compared strictly with the model; numpy arrays of 8- / 16- / 32- / 64-bit signed and unsigned integers give the sums of the plain list (after fix F13: arrays are normalised at the adaptor; before it multifit, dp, cg, snp, rnp, bin_completion wrapped around and ilp failed); bin_completion on named items: since fix F15 (the search runs on the values, the names are put back; formerly known finding KF4) not modelled but judged on every run by the verified checkers (valid packing of the names, same multiset of sums as for list input, optimal count).", TB),
+         "Full for the fold-shaped algorithms, KK, CG, CBLDM, DP (any renaming, so repeated values in list input are covered); for CKK and SNP full as well (equivariance under injective renamings + equality of the whole sum vector with the run on the bare values; for CKK after fix F11, the statement was false before); for RNP (k <= 5) by RNPDict.rnpF_list_dict_sums; each case is presented as list, numpy array, dict (string and integer names) and names+valueof and compared strictly with the model; numpy arrays of 8- / 16- / 32- / 64-bit signed and unsigned integers give the sums of the plain list (after fix F13: arrays are normalised at the adaptor; before it multifit, dp, cg, snp, rnp, bin_completion wrapped around and ilp failed); bin_completion on named items: since fix F15 (the search runs on the values, the names are put back; formerly known finding KF4) modelled by BC.binCompletionNamed and compared strictly like every other algorithm.", TB),
  "C08": ("proof", "Lean 4 theorems greedy_four_thirds (Graham), kk_four_thirds, greedy/kk/roundrobin_gap, roundrobin_monotone/cards, multifit_ratio_five_fourths, MaxMin5.greedy_maxmin (LPT's exact max-min ratio (3k-1)/(4k-2) for every k) + verified DP oracle for the remaining sharp ratio",
          "Gap bounds and round-robin structure full; 4/3 - 1/(3k) proved in full for LPT and for Karmarkar-Karp; LPT's exact max-min ratio (3k-1)/(4k-2) (Csirik-Kellerer-Woeginger) proved in full for every k (MaxMin5.greedy_maxmin); PARTIAL only for multifit: proved <= (5/4 + 2^-it) OPT for every k, 1.22 + 2^-it for k <= 6 and for every k when no item lies strictly between 0.22 OPT and 0.26 OPT (MultiFit122); the remaining case is searched for counter-examples with the verified oracle on every run.", TB),
  "C09": ("proof", "Lean 4 theorems ff/bf(±decreasing)_anyfit, FF17Abs.ff/bf/gen_seventeen_tenths_plus_6 (<= 1.7 OPT + 0.6), ff/bf_seventeen_tenths_abs_partial, ffd/bfd_three_halves, ffd/bfd_five_fourths, FFD119Gap reduction + verified optBins oracle",
